@@ -551,14 +551,28 @@ async fn faults(r: &mut Rng) -> (String, String) {
     let sub_ms = sub_ms && kind != 6;
     let sig = format!("faults:k{kind}:{}", if sub_ms { "subms" } else { "ms" });
     let ca = cfg(r, Some(timeout));
-    let cb = cfg(r, Some(timeout));
+    let mut cb = cfg(r, Some(timeout));
+    if kind == 6 && r.chance(2, 3) {
+        // the endpoints configure different timeouts (or one of them none): each must ping at the rate the OTHER one needs
+        cb.connection_timeout = *r.pick(&[None, Some(Duration::from_millis(7)), Some(Duration::from_millis(300)), Some(Duration::from_secs(60))]);
+    }
     let start = tokio::time::Instant::now();
+    let cb_timeout = cb.connection_timeout;
     let mut p = conn::connect(ca, cb).await;
     if kind == 6 {
-        // idle but healthy for a long time: nothing may be torn down
-        tokio::time::sleep(timeout * 1000).await;
+        // idle but healthy for a long time: nothing may be torn down.  The idle period is a thousand local timeouts,
+        // limited to 300 000 of the shorter ping interval (the link's frame log is kept in memory)
+        p.net.a2b.set_budget(2_000_000);
+        p.net.b2a.set_budget(2_000_000);
+        let shorter = cb_timeout.map(|t| t.min(timeout)).unwrap_or(timeout) / 2;
+        tokio::time::sleep((timeout * 1000).min(shorter * 300_000)).await;
+        if p.net.a2b.over_budget() || p.net.b2a.over_budget() {
+            return (sig, "FAIL: harness: frame budget of the idle stream exceeded".into());
+        }
         if p.mux_a.is_finished() || p.mux_b.is_finished() {
-            return (sig, format!("FAIL: C06 an idle healthy connection was torn down (timeout {:?})", timeout));
+            let ea = if p.mux_a.is_finished() { (&mut p.mux_a).now_or_never().map(|r| format!("{r:?}")) } else { None };
+            let eb = if p.mux_b.is_finished() { (&mut p.mux_b).now_or_never().map(|r| format!("{r:?}")) } else { None };
+            return (sig, format!("FAIL: C06 an idle healthy connection was torn down (timeouts {:?} / {:?}; dispatchers {ea:?} {eb:?}; after {:?})", timeout, cb_timeout, start.elapsed()));
         }
         // and it still works
         let ((mut tx, _), (_, mut rx)) = conn::open_port(&mut p).await;
